@@ -51,11 +51,19 @@ def bounded_placement(tier, seed):
               ("vba.function.createobject", b"CreateObject(a(b)c)", b"CreateObject(a(b)c)"), ("vba.function.createobject", b"createobject((x)(y))", b"createobject((x)(y))")]
     pe = fuzz.mkpe(0x200, 0x200, 0x400)
     kinds.append(("pe_file", pe, pe))
-    neighbours = [b"", b"see http://early.example.com/some/long/path/index.html first; ", b"CreateObject(http://inner.example.org/x) then ", b"cmd.exe and other.example.net ; "]
+    # a PE whose section table is not in file order: the file ends at the LARGEST pointer + size, not at the last table entry's
+    pe2 = fuzz.mkpe_sections([(0x400, 0x200), (0x200, 0x200)])
+    kinds.append(("pe_file", pe2, pe2))
+    neighbours = [b"", b"see http://early.example.com/some/long/path/index.html first; ", b"CreateObject(http://inner.example.org/x) then ", b"cmd.exe and other.example.net ; ",
+                  # an unbalanced call earlier in the text (a comment, a truncated line) must not hide later indicators
+                  b"' x = CreateObject(unfinished ; "]
     failures, n, distinct = [], 0, set()
     for typ, text, value in kinds:
-        for off in range(4):
-            for nb in neighbours[: (2 if tier == "quick" and typ not in ("network.ip", "executable.filename", "network.domain") else 4)]:
+        for off in (0, 1, 2, 3, 6, 7, 12):
+            nbs = neighbours[: (2 if tier == "quick" and typ not in ("network.ip", "executable.filename", "network.domain") else 4)]
+            if typ in ("vba.function.createobject", "network.ip") or tier != "quick":
+                nbs = nbs + [neighbours[4]]
+            for nb in nbs:
                 for dup, follow in ((False, b""), (True, b""), (False, b" <t>"), (False, b" and more <w:t>"), (False, b" then ces. 1")):
                     if follow and typ not in ("network.ip", "network.domain", "executable.filename") and tier == "quick":
                         continue
@@ -75,7 +83,7 @@ def bounded_placement(tier, seed):
                     if missing and sum(1 for f in failures if f["id"].startswith(f"{typ} ")) < 2:
                         failures.append({"id": f"{typ} not reported at {missing}", "function": "multidecoder.decoders", "obligation": "bounded/C11", "case": {"place": data.hex(), "type": typ, "value": value.hex(), "want": want},
                                          "observed": f"{data[:120]!r}: no {typ} node with value {value[:40]!r} at span(s) {missing}; {typ} nodes found at {sorted(abs_span(x) for x in tree if x.type == typ)}"})
-    return {"evaluations": n, "distinct_nontrivial": len(distinct), "scope": "indicator instances x offsets 0..3 x {alone, after an unrelated URL, after a CreateObject(URL) context, after file/domain names} x {once, twice, followed by unrelated markup}", "failures": failures,
+    return {"evaluations": n, "distinct_nontrivial": len(distinct), "scope": "indicator instances x offsets 0..3, 6, 7, 12 x {alone, after an unrelated URL, after a CreateObject(URL) context, after file/domain names} x {once, twice, followed by unrelated markup}", "failures": failures,
             "samples": [{"place": (b" " + kinds[0][1] + b" \n").hex(), "type": kinds[0][0]}]}
 
 
